@@ -1294,7 +1294,11 @@ class RZILTransformer(Transformer):
         if not isinstance(cond, LetVar):
             return None
         self.il_ops_holder.rm_op_by_name(cond.get_name())
-        if cond.get_val():
+        val = cond.get_val()
+        if isinstance(val, int):
+            # The condition is a value of its type: ~0xffffffffU is 0.
+            val = wrap_to_type(val, cond.value_type)
+        if val:
             self.il_ops_holder.rm_op_by_name(items[2].get_name())
             return items[1]
         self.il_ops_holder.rm_op_by_name(items[1].get_name())
